@@ -144,7 +144,7 @@ func vfLifecycle(c11 bool) {
 			issueAct = nact
 			nact++
 		}
-		if events > 0 && w.mq.activeSub("event.test.model") != nil {
+		if events > 0 && (w.mq.activeSub("event.test.model") != nil || (zzvf.ParamOr("reaccess", 0) == 1 && w.mq.activeSub("event.test.parent") != nil)) {
 			evAct = nact
 			nact++
 		}
@@ -196,7 +196,10 @@ func vfLifecycle(c11 bool) {
 			}
 		case a == evAct:
 			events--
-			if zzvf.Choose("event", 2) == 0 {
+			if ek := zzvf.Choose("event", 2+zzvf.ParamOr("reaccess", 0)); ek == 2 {
+				zzvf.Note("event: reaccess on test.parent")
+				w.mq.event("event.test.parent", "reaccess", nil)
+			} else if ek == 0 {
 				zzvf.Note("event: delete")
 				zzvf.Tag("delete-event")
 				w.mq.event("event.test.model", "delete", nil)
@@ -214,11 +217,12 @@ func vfLifecycle(c11 bool) {
 			if !r.disc {
 				zzvf.Note("disconnect " + r.cl.c.cid)
 				r.disc = true
-				w.disconnect(r.cl)
 				if c11 {
-					w.settle()
+					// all queues are drained here: whatever is requested from
+					// now on with this cid is requested for a closed connection
 					discMark = len(w.mq.reqs)
 				}
+				w.disconnect(r.cl)
 			}
 		default:
 			req := pend[a-firstAnswer]
